@@ -33,7 +33,9 @@ def bounds(tier, seed):
             "file_option_sets": "B x prefixes x networks x salts"}
 
 
-NETS = [None, ["10.1.0.0/16", "200.1.2.3/32"]]
+NETS = [None, ["10.1.0.0/16", "200.1.2.3/32"],
+        # networks that start at the base address of a default prefix / of each other
+        ["10.0.0.0/12", "192.168.0.0/24", "128.0.0.0/9"]]
 PREFS = [None, [], ["10.0.0.0/8", "12.0.0.0/6", "128.0.0.0/1"]]
 
 
@@ -167,6 +169,14 @@ class LinePart(Part):
             # adversarial originals: the preimages of mask-shaped values under this very configuration
             # (their image is mask-shaped, so whatever is written for them must be left alone by undo -
             # or, if something else is written, undo must restore the original)
+            # ... and what an anonymizer that forgot a preserved network would send into it
+            if nets:
+                forgot = ipdom.make(dict(cfg, networks=None))
+                for n in nets:
+                    for off in (0, 1, n.num_addresses // 2, n.num_addresses - 1):
+                        x = forgot.deanonymize(int(n.network_address) + min(off, n.num_addresses - 1))
+                        if not refs.is_mask32(x) and not refs.in_any(x, nets) and x not in W:
+                            W.append(x)
             ref = ipdom.make(cfg)
             for mtext in ("255.255.255.0", "0.0.0.255", "255.255.0.0", "255.255.255.255", "0.0.0.0",
                           "255.255.255.252", "0.0.63.255", "128.0.0.0", "255.255.255.254"):
@@ -242,7 +252,7 @@ class FilePart(Part):
         Bs = [0, 8, 17, 32] if self.tier == "thorough" else [0, 8, 32]
         for B in Bs:
             for pi, pref in enumerate([None, ["10.0.0.0/8", "12.0.0.0/6"]]):
-                for ni, nets in enumerate([None, ["10.1.0.0/16", "200.1.2.3/32"], "private"]):
+                for ni, nets in enumerate([None, ["10.1.0.0/16", "200.1.2.3/32"], "private", ["10.0.0.0/12", "192.168.0.0/24"]]):
                     for salt in (["saltForTest", "seed%d" % self.seed, "sält", "", " "]
                                  if self.tier == "thorough" else
                                  ["saltForTest", "seed%d" % self.seed] + ([""] if (B + pi + ni) % 3 == 0 else [])):
@@ -262,6 +272,14 @@ class FilePart(Part):
             x = ref.deanonymize(m)
             if not refs.is_mask32(x) and x not in W4:
                 W4.append(x)
+        if nets:
+            forgot = ipdom.make_v4(["md5", cfg["salt"]], cfg["B"], cfg["prefixes"], None)
+            nobjs = [ipaddress.ip_network(n) for n in nets]
+            for n in nobjs:
+                for off in (0, 1, n.num_addresses // 2, n.num_addresses - 1):
+                    x = forgot.deanonymize(int(n.network_address) + min(off, n.num_addresses - 1))
+                    if not refs.is_mask32(x) and not refs.in_any(x, nobjs) and x not in W4:
+                        W4.append(x)
         for a in W4:
             sp = refs.v4_spellings(a)
             toks.append(("4", a, sp[0]))
